@@ -205,12 +205,21 @@ func Fill(r *rand.Rand, v reflect.Value, p *Profile, path string, isOptional boo
 		v.SetFloat(math.Float64frombits(bits))
 	case reflect.String:
 		if isOptional && p.null(r, path) {
-			v.SetString("")
+			// the zero string, sometimes as an empty string whose data pointer is not nil
+			// (a slice of a longer string): both are "" and must be null on every path
+			if r.Intn(2) == 0 {
+				s := emptyTailOf[r.Intn(len(emptyTailOf))]
+				v.SetString(s[len(s):])
+			} else {
+				v.SetString("")
+			}
 			return
 		}
 		v.SetString(randString(r, p))
 	}
 }
+
+var emptyTailOf = []string{"abc", "prefix-shared-0001", "x"}
 
 func randString(r *rand.Rand, p *Profile) string {
 	switch {
